@@ -93,4 +93,31 @@ theorem sortCtx_tie :
     Generated.C17.sortSwapPrologue = ["ctx.checkDetached()", "if ctx.detached { return }"] ∧
     Generated.C17.sortLessRevalidatesAfterCompare = true := by decide
 
+/-! ### start indices of the reading methods (regenerated from the assignment trees of the Go methods) -/
+
+/-- indexOf / includes: "beyond the end" test and start index -/
+theorem firstFrom_tie :
+    Generated.C17.indexOfFrom = firstFrom ∧ Generated.C17.includesFrom = firstFrom ∧
+    (∀ n l : Int, Generated.C17.indexOfBeyond n l = decide (n ≥ l)) ∧
+    (∀ n l : Int, Generated.C17.includesBeyond n l = decide (n ≥ l)) := by
+  refine ⟨?_, ?_, fun _ _ => rfl, fun _ _ => rfl⟩
+  · funext n l; simp [Generated.C17.indexOfFrom, firstFrom]
+  · funext n l; simp [Generated.C17.includesFrom, firstFrom]
+
+/-- lastIndexOf: `length-1` without a second argument, otherwise `min(fromIndex, length-1)` / `fromIndex + length` / −1 —
+seeded mutation C17-m1 (`min(fromIndex, length)`) changes the regenerated definition and breaks this equality -/
+theorem lastFrom_tie (l : Int) (a : IArg) :
+    lastFrom none l = Generated.C17.lastIndexOfFromNoArg l ∧
+    lastFrom (some a) l = Generated.C17.lastIndexOfFromArg a.val l := by
+  constructor
+  · simp [lastFrom, Generated.C17.lastIndexOfFromNoArg]
+  · simp [lastFrom, Generated.C17.lastIndexOfFromArg]
+
+/-- at: relative index and range test -/
+theorem atIndex_tie :
+    Generated.C17.atIdx = atIndex ∧
+    (∀ i l : Int, Generated.C17.atOutOfRange i l = (decide (i ≥ l) || decide (i < 0))) := by
+  refine ⟨?_, fun _ _ => rfl⟩
+  funext i l; simp [Generated.C17.atIdx, atIndex]
+
 end GojaModel.C17.Tie
